@@ -49,7 +49,7 @@ WHAT = {
     "C01-b": ("agreement/player.go certThreshold: falls back to the locally staged value when the certificate is from another period (commits W under a certificate for V)", "none: C01 (two digests for one round) did not reach it in 450 runs - it needs one node alone staging W while a later period certifies V - but the block/certificate mismatch it produces is exactly what C03's commit oracle checks, and the C03 check catches it"),
     "C02-b": ("agreement/actions.go checkpointAction: a persist ERROR is dropped if the vote task is not yet waiting (votes leave with nothing on disk)", "two additions: write faults on the crash DB (an injected BEFORE INSERT trigger makes every persist fail, old data stays) and 'persist first' runs in which the verification pool waits for the persists (the other legal order of the two concurrent activities)"),
     "C03-b": ("agreement/voteTracker.go: an equivocator's stale vote stays in the stored vote set (bundle lists it twice)", ""),
-    "C08-b": ("ledger/lruaccts.go: a cached 'deleted' placeholder is replaced by a stale row read (closed account resurrected in the cache)", "NOT strengthened (time): needs a historical DB read of the account queued before the flush of its close and no lookup of it in between - the check's frequent sampled lookups heal the cache"),
+    "C08-b": ("ledger/lruaccts.go: a cached 'deleted' placeholder is replaced by a stale row read (closed account resurrected in the cache)", "sparse-query runs: in half of the C08 runs three steps in four ask ONE sampled question instead of 2-12, so that what an earlier (historical) answer left in the caches is not repaired at once by the following lookups"),
     "C09-b": ("ledger/blockqueue.go: notifyCommit announces the newest QUEUED round as committed (Wait() confirms unflushed blocks)", "durability probe in the backlog scenario: with two blocks queued behind a stopped syncer, whatever Ledger.Wait confirms must survive a crash at that instant"),
     "C11-b": ("ledger/eval/cow.go checkDup: an in-block lease that expires in the block's own round counts as expired", ""),
     "C16-b": ("sqlitedriver/catchpoint.go: ResetCatchpointStagingBalances no longer drops catchpointbalances (rows of a failed attempt survive the retry)", ""),
